@@ -17,39 +17,48 @@ Definition model (i : input) : obs :=
 
 Definition tev_eqb : tid * cev -> tid * cev -> bool := pair_eqb Nat.eqb cev_eqb.
 
-(* What is compared with the model: the observation as far as the statement fixes it.
-   - The global interleaving of the trace is an artefact of the deterministic scheduler (it shifts as soon as
-     some thread performs one shared operation more or less); the statement speaks about each thread's own
-     events in that thread's order, so the trace is compared thread by thread.  (Mutual exclusion, i.e. how
-     the threads' sections may interleave, is judged by spec_okb on the implementation's trace itself.)
-   - main's own acquire / stop() / release on the caller's result inside the abort handler: how many stop()
-     calls there are and in which order is left open (see Spec.common_okb); they are not compared.
-   - which workers were still alive when run() ended is fixed only for a normal return.
-   - the workers told to stop: the statement demands that every started, not yet joined worker is among them
-     unless a stop() of the caller's result itself raised; order, and whether joined workers are told too, is
-     open.  Compared: the started-and-unjoined workers that were told, as a set in start order; nothing when a
-     stop() of the caller's result raised. *)
-Definition is_main_cg (e : tid * cev) : bool := match e with (0, CG _) => true | _ => false end.
-Definition tproj (t : tid) (tr : list (tid * cev)) : list cev := map snd (filter (fun e => fst e =? t) tr).
+(* What is compared with the model: the observation as far as the statement fixes it, whatever synchronisation
+   primitives the suite uses and whether or not it has a completion / event queue.
+   - per started worker: its own calls on the caller's result in its order (classic: its sections of the log),
+     and - for a normal return - what main passed on from it (stream: delivered events with route code and
+     timestamp).  For an aborted run the delivered events are only a prefix whose length depends on the
+     interleaving: not compared (spec_okb judges the prefix on the implementation's trace).
+   - which sub-suites were started (each once, by the caller), whether run() raised, deadlock, semaphore free.
+   - the live flags for a normal return only.
+   - the workers told to stop: only when the abort came from make_tests (nobody has finished then in any
+     implementation's bookkeeping: all started workers); for an interrupt or a raising caller's result how far
+     everybody had got depends on the interleaving, for a raising stop() nothing is demanded.
+   Queue put / get events, joins and their order, main's acquire/stop()/release, and the global interleaving
+   (an artefact of the deterministic scheduler) are internal: forgotten. *)
+Definition cg_of (t : tid) (tr : list (tid * cev)) : list gev :=
+  flat_map (fun e => match e with (u, CG g) => if u =? t then [g] else [] | _ => [] end) tr.
 
 Record aobs := {
-  a_threads : list (list cev); a_rest : list (tid * cev); a_raised : bool; a_live : list bool;
+  a_spawns : list nat;
+  a_workers : list (list gev * list (nat * nat * rcode * tstamp * bool));
+  a_rest : list (tid * cev); a_raised : bool; a_live : list bool;
   a_stops : list nat; a_deadlock : bool; a_sem_free : bool }.
 
 Definition alpha (o : obs) : aobs :=
-  let tr := filter (fun e => negb (is_main_cg e)) (o_trace o) in
-  let n := length (spawns (o_trace o)) in
-  {| a_threads := map (fun t => tproj t tr) (seq 0 (S n));
-     a_rest := filter (fun e => n <? fst e) tr;
+  let tr := o_trace o in
+  let n := length (spawns tr) in
+  {| a_spawns := spawns tr;
+     a_workers := map (fun w => (cg_of (S w) tr, if o_raised o then [] else delivered w tr)) (seq 0 n);
+     a_rest := filter (fun e => match snd e with CG _ => n <? fst e | _ => false end) tr;
      a_raised := o_raised o;
      a_live := if o_raised o then map (fun _ => false) (o_live o) else o_live o;
-     a_stops := if existsb (fun b => b) (main_stops (o_trace o)) then []
-                else filter (fun w => memb w (o_stops o) && negb (memb w (joins (o_trace o)))) (spawns (o_trace o));
+     a_stops := if has_intr tr || status_raised tr || existsb (fun b => b) (main_stops tr) then []
+                else filter (fun w => memb w (o_stops o)) (spawns tr);
      a_deadlock := o_deadlock o;
      a_sem_free := o_sem_free o |}.
 
+Definition gev_list_eqb := list_eqb gev_eqb.
+Definition dl_eqb (a b : nat * nat * rcode * tstamp * bool) : bool :=
+  ev3_eqb (fst a) (fst b) && Bool.eqb (snd a) (snd b).
+
 Definition aobs_eqb (a b : aobs) : bool :=
-  list_eqb (list_eqb cev_eqb) (a_threads a) (a_threads b)
+  list_eqb Nat.eqb (a_spawns a) (a_spawns b)
+  && list_eqb (pair_eqb gev_list_eqb (list_eqb dl_eqb)) (a_workers a) (a_workers b)
   && list_eqb tev_eqb (a_rest a) (a_rest b)
   && Bool.eqb (a_raised a) (a_raised b)
   && list_eqb Bool.eqb (a_live a) (a_live b)
